@@ -449,6 +449,7 @@ def run(tier):
     rule_R4(res, prog)
     rule_R1i(res, prog, cg)
     rule_R5(res, prog)
+    rule_R6(res, prog)
     return res.finish()
 
 
@@ -837,3 +838,71 @@ def rule_R5(res, prog):
                          "negative length" % (fn.relfile, ln, ln, esc[-1][1], [p_[1] for p_ in esc[-6:-1]]), file=fn.relfile, line=ln)
         res.instance(rid, "matrixSslDecodeTls12AndBelow:%s padLen read -> IV skip passes the full minimum-length test" % ln, esc is None, finding=f_)
     res.floor(rid, 1)
+
+
+def rule_R6(res, prog):
+    """No crash on any network input - digest context typestate: a local digest / HMAC context handed to ps<Hash>Update or
+    ps<Hash>Final was initialised by ps<Hash>Init (same family, same object) on EVERY path from the function entry; a
+    PreInit only zeroes bookkeeping.  Finalising a context that was initialised on the good-padding path only is reachable
+    by flipping one ciphertext byte of a CBC record."""
+    import re
+    from sa import cfgutil as cu
+    rid = "C08.R6"
+    res.rule(rid, "a local digest context is initialised on every path before it is updated or finalised (protocol layer)")
+    PAT = re.compile(r"^ps(Hmac)?(Md5Sha1|Md5|Sha1|Sha224|Sha256|Sha384|Sha512)(Init|Update|Final)$")
+
+    def ctx_var(call):
+        if not call.get("a"):
+            return None
+        a0 = strip(call["a"][0])
+        while a0 is not None and a0.get("k") == "cast":
+            a0 = strip(a0["e"])
+        if a0 is not None and a0.get("k") == "un" and a0["op"] == "&":
+            a0 = strip(a0["e"])
+        root = a0
+        while root is not None and root.get("k") in ("mem", "idx"):
+            root = strip(root.get("b") if root.get("k") == "mem" else root.get("a") or root.get("b"))
+        if root is not None and root.get("k") == "var" and root.get("sc") == "l" and "*" not in (root.get("t") or ""):
+            return (root["id"], cu.ftext(a0))
+        return None
+    n = 0
+    for fn in sorted(prog.functions.values(), key=lambda f: (f.relfile, f.line)):
+        if not fn.blocks or not fn.relfile.startswith("matrixssl/") or "/test/" in fn.relfile:
+            continue
+        uses = []
+        for b in fn.blocks:
+            for i, ln, x in cu.block_exprs(b):
+                for m in walk(x):
+                    if m.get("k") == "call" and m.get("fn"):
+                        mm = PAT.match(m["fn"])
+                        if mm and mm.group(3) in ("Update", "Final"):
+                            cv = ctx_var(m)
+                            if cv is not None:
+                                uses.append((b["id"], i, ln, m, mm.group(1) or "", mm.group(2), cv))
+        seen = set()
+        for (bid, idx, ln, call, hm, fam, cv) in uses:
+            if (ln, call["fn"], cv) in seen:
+                continue
+            seen.add((ln, call["fn"], cv))
+            n += 1
+
+            def inits(x, hm=hm, fam=fam, cv=cv):
+                for m in walk(x):
+                    if m.get("k") == "call" and m.get("fn") == "ps%s%sInit" % (hm, fam) and ctx_var(m) == cv:
+                        return True
+                    # a copy of a running context (snapshot of the handshake hash): ps<Hash>Cpy(&ctx, src), memcpy(&ctx, ..), ctx = src
+                    if m.get("k") == "call" and m.get("fn") and (re.match(r"^ps\w+Cpy$", m["fn"]) or m["fn"] in (
+                            "memcpy", "__builtin_memcpy", "__builtin___memcpy_chk")) and ctx_var(m) == cv:
+                        return True
+                    if m.get("k") == "bin" and m["op"] == "=" and cu.ftext(m["l"]) == cv[1]:
+                        return True
+                return False
+            esc = cu.escapes(fn, (fn.entry, None), inits, target_expr=lambda y, call=call: any(q is call for q in walk(y)))
+            f_ = None
+            if esc is not None:
+                f_ = Finding(PROP, rid, fn.name, "%s on a context that is not initialised on every path" % call["fn"],
+                             "%s:%s %s(): %s(%s) is reached (via lines %s) without ps%s%sInit on that context: the digest state is "
+                             "indeterminate there (crash or garbage), and the path is chosen by the peer's bytes" % (
+                                 fn.relfile, ln, fn.name, call["fn"], cv[1], [p_[1] for p_ in esc[-6:-1]], hm, fam), file=fn.relfile, line=ln)
+            res.instance(rid, "%s:%s %s(%s) initialised on every path" % (fn.name, ln, call["fn"], cv[1][:24]), esc is None, finding=f_)
+    res.floor(rid, 5)
